@@ -561,7 +561,8 @@ def sig_of(v: T.Dict[str, T.Any]) -> str:
     def part(stt: str, ver: str) -> str:
         return f'{stt}/{ver}' if stt in ('full', 'partial') else stt
     lost = '[' + ','.join(v.get('lost') or []) + ']' if v['clause'] == 'ValuesOldOrNew' else ''
-    return f"{v['clause']}{lost}:{v['kind']}:core={part(s['core'], s['corever'])},cmdline={part(s['cmdl'], s['cmdlver'])}"
+    piped = f",piped-machine-file={s['mfile']}" if s.get('mfile', 'none') != 'none' else ''
+    return f"{v['clause']}{lost}:{v['kind']}:core={part(s['core'], s['corever'])},cmdline={part(s['cmdl'], s['cmdlver'])}{piped}"
 
 
 def tlc_trace(chk: Check, cfg: str, label: str, scripts: T.List[T.Dict[str, T.Any]], cases: T.List[T.Dict[str, T.Any]],
